@@ -325,6 +325,27 @@ func c13CheckMarker(r *prog.Runner, prefix, delim string, full []c13Entry, idx i
 		return
 	}
 	got := c13Entries(doc)
+	if m.ID == "null" && idx > 0 && delim == "" {
+		// The pair is spelled as the listing displays the entry, not as the server's own markers
+		// spell it (those carry an internal ID). It has to be read the way the server's own
+		// markers are: if the marker the server hands out after the first idx entries names the
+		// next entry, pairs name where to resume; if it names the last entry returned, they name
+		// what to resume after.
+		if pd, _ := c13List(r.St, prefix, delim, idx, "", "", false); pd != nil && pd.IsTruncated {
+			switch pd.NextKeyMarker {
+			case full[idx].Key:
+				if full[idx-1].Key != full[idx].Key && !entriesEq(got, full[idx:]) {
+					fail("marker-convention", "the server's own marker after %d entries is %q (the next entry), so a pair names the entry to resume at; the pair naming entry %d returned %d entries, expected the %d from it on\n got %v\nfull %v", idx, pd.NextKeyMarker, idx, len(got), len(full)-idx, got, full)
+				}
+				return
+			case full[idx-1].Key:
+				if full[idx-1].Key != full[idx].Key && !entriesEq(got, full[idx+1:]) {
+					fail("marker-convention", "the server's own marker after %d entries is %q (the last entry returned), so a pair names the entry to resume after; the pair naming entry %d returned %d entries, expected the %d after it\n got %v\nfull %v", idx, pd.NextKeyMarker, idx, len(got), len(full)-idx-1, got, full)
+				}
+				return
+			}
+		}
+	}
 	if !entriesEq(got, full[idx:]) && !entriesEq(got, full[idx+1:]) {
 		fail("marker-suffix", "listing from entry %d of the unpaginated listing returned %d entries; expected the %d entries from it or the %d after it\n got %v\nfull %v", idx, len(got), len(full)-idx, len(full)-idx-1, got, full)
 	}
